@@ -21,6 +21,31 @@ ASSUMPTIONS = ["bytes.Buffer Next/ReadByte/UnreadByte behave as documented (Mode
 _logical = {}   # request line -> logical signal (for shrinking)
 
 
+def oracle(c, real, model):
+    """None = plain comparison.  One relational clause: a well-formed section with pointer_field 255 must decode (the
+    property says "any pointer_field"); the unchanged decoder rejects it (uint8 arithmetic on pointer_field + 1) and so does
+    its model, so the comparison alone would accept it: known finding K4, theorem C08_pointer_255_refuted."""
+    if (c.kind == "pointer-255" or c.line in _k4_lines()) and c.line.startswith("scte.decode xff") and real.startswith("[1 "):
+        return ("K4: a well-formed splice_info_section behind a pointer_field of 255 is rejected (error %s): psi.PointerField(data)+1 "
+                "is computed in uint8 and wraps to 0 (C08_pointer_255_refuted)" % real[3:-1])
+    return None
+
+
+_K4 = []
+
+
+def _k4_lines():
+    if not _K4:
+        _K4.append({l for k in vlib.load_known("C08") if k.get("id") == "K4" for l in k.get("lines", [])})
+    return _K4[0]
+
+
+def known_match(entry, case, real, model):
+    if entry.get("signature") == "pointer-field-255":
+        return case.line.startswith("scte.decode xff") and (oracle(case, real, model) or "").startswith("K4:")
+    return case.line in entry.get("lines", [entry.get("line")])
+
+
 def _case(s, b, kind, theorem, decides=True):
     line = "scte.decode " + hx(b)
     _logical[line] = s
